@@ -10,9 +10,13 @@
 pub mod shim;
 pub mod stubs;
 pub mod env;
+pub mod c03;
+pub mod c05;
 pub mod c09;
 pub mod c16;
 pub mod c18;
+pub mod c20;
+pub mod kp;
 #[cfg(feature = "vc")]
 pub mod c15;
 #[cfg(not(kani))]
